@@ -151,6 +151,50 @@ def exec (v : Variant) (decode : List UInt8 → Option Info) (r : Registry) (p :
     else if cmd = cmdUNREGISTER then .reply (unregister r p args).1 (unregister r p args).2 rest
     else .reply (disconnect r p) (.err .invalid (ascii "invalid command " ++ cmd)) rest
 
+/-! ### The documented error table (specification of `Exec`) -/
+
+def errCodeOf : TcpOut → Option Code
+  | .err c _ => some c
+  | _ => none
+
+/-- Which error, if any, one command line gets (`params` = the words of the line, `rest` = the bytes after it):
+written from the protocol description, condition by condition — not by running the handlers.
+* `E_INVALID`: unknown command word; `IDENTIFY` on an identified connection; `REGISTER`/`UNREGISTER` before
+  `IDENTIFY` or without a topic;
+* `E_BAD_TOPIC`: `REGISTER`/`UNREGISTER` (identified) whose first argument is not a valid name;
+* `E_BAD_CHANNEL`: … whose topic is valid and whose second argument is non-empty and not a valid name;
+* `E_BAD_BODY`: first `IDENTIFY` with fewer than 4 size bytes, a size ≤ 0 or > 1 MiB, fewer body bytes than
+  declared, an undecodable body, or a document with a missing field;
+* nothing (the command succeeds) otherwise. -/
+def expectedErr (decode : List UInt8 → Option Info) (r : Registry) (p : Nat) (params : List Name)
+    (rest : List UInt8) : Option Code :=
+  match params with
+  | [] => none
+  | cmd :: args =>
+    if cmd = cmdPING then none
+    else if cmd = cmdIDENTIFY then
+      if identifiedB r p then some .invalid
+      else
+        match rest with
+        | a :: b :: c :: d :: body =>
+          if be32 a b c d > maxIdentifyBody ∨ be32 a b c d ≤ 0 then some .badBody
+          else if body.length < (be32 a b c d).toNat then some .badBody
+          else
+            match decode (body.take (be32 a b c d).toNat) with
+            | none => some .badBody
+            | some info => if missingFields info then some .badBody else none
+        | _ => some .badBody
+    else if cmd = cmdREGISTER ∨ cmd = cmdUNREGISTER then
+      if !identifiedB r p then some .invalid
+      else
+        match args with
+        | [] => some .invalid
+        | t :: _ =>
+          if !validName t then some .badTopic
+          else if chanParam args ≠ [] && !validName (chanParam args) then some .badChannel
+          else none
+    else some .invalid
+
 inductive End
   | eof          -- the client's stream ended (read error): loop exits, cleanup runs
   | fatal        -- a FatalClientErr was answered: loop exits, cleanup runs
@@ -372,6 +416,18 @@ def httpOutcomes (c : Conf) (r : Registry) (method path : String) (a : HttpArgs)
   match route method path with
   | .found .pprof => (pprofStatuses path).map (fun st => (r, st))
   | _ => [httpStep c r method path a now]
+
+/-! ### What an accepted admin call may touch (specification, `Nsq.Props.C15.admin_call_touches_only`) -/
+
+/-- what `/topic/delete?topic=t` removes: every channel key and the topic key whose `Key` is `t` — or, for
+`t = "*"` (the wild card of `FindRegistrations`), of every topic -/
+def delTouched (t : Name) (k : Key) : Bool :=
+  (k.cat = .channel || (k.cat = .topic && k.sub = [])) && (t = star || k.key = t)
+
+/-- what `/topic/tombstone?topic=t&node=n` may mark: the entry of a producer whose `broadcast_address:http_port`
+is `n`, under the topic key of `t` (`t = "*"`: under a topic key) -/
+def tombTouched (r : Registry) (t node : Name) (k : Key) (q : Nat) : Bool :=
+  k.cat = .topic && k.sub = [] && (t = star || k.key = t) && nodeMatches r q node
 
 /-- body of `GET /ping` (`pingHandler` returns "OK", `http_api.PlainText` writes it as is) -/
 def pingBody : List UInt8 := [79, 75]
